@@ -38,7 +38,7 @@ AREAS["C03"] = {
     "level_note": "trusted as C01; CRC-32 collisions are outside the claim (delta != 0 is a hypothesis of the propagation clause); a change below an even number of paths cancels by the XOR definition itself (known finding K2)",
 }
 AREAS["C05"] = {
-    "area": "c05", "id": 5, "coq": ["Base", "Store", "Properties/C05.v"], "rule": STORE_RULE, "trusted": STORE_TRUSTED, "assumptions": STORE_ASSUME,
+    "area": "c05", "id": 5, "coq": ["Base", "Store", "Properties/C05.v", "Anchors/Generated.v", "Anchors/TieStore.v"], "rule": STORE_RULE, "trusted": STORE_TRUSTED, "assumptions": STORE_ASSUME,
     "level_text": "proof: in the model every request of a refused class is answered with an error, an error reply leaves state and rebroadcast stream untouched, reachable graphs stay acyclic "
                   "so the upward recursions terminate; replies, dumps and up.> traffic of a real instance are compared with the model after every request and the refusal/no-trace specification is evaluated on them",
     "level_note": "trusted as C01; a request that kills or wedges the instance is observed through worker processes with timeouts; 'keeps answering' is evaluated as: every request is answered, "
@@ -149,7 +149,7 @@ AREAS["C20"] = {
 
 AREAS["C04"] = {
     "area": "c04", "id": 4, "level": "proof",
-    "coq": ["Base", "Store", "Properties/C04.v"],
+    "coq": ["Base", "Store", "Properties/C04.v", "Anchors/Generated.v", "Anchors/TieStore.v"],
     "rule": "a writer process (embedded NATS + store on a fresh SQLite file, 2 generated scripts of ~20 accepted requests each: node point batches, new edges, a mirror, "
             "edge points; thorough: 10 scripts) is killed by strace fault injection (SIGKILL at the N-th write/pwrite64/fsync/fdatasync/ftruncate on the database or its WAL, "
             "N swept from 1 until three consecutive runs survive) and at 6 sampled times; acknowledgements are logged with O_SYNC; the file is then reopened twice by fresh "
@@ -233,7 +233,7 @@ AREAS["C18"] = {'area': 'c18',
          'Modbus/BitsProofs.v',
          'Modbus/PduProofs.v',
          'Modbus/Legacy.v',
-         'Properties/C18.v'],
+         'Properties/C18.v', "Anchors/Generated.v", "Anchors/TieModbus.v"],
  'rule': 'seeded generator: register files built through AddReg/WriteReg/AddRegValueValidator (empty; sparse: 1-6 registers anywhere incl. 0, '
          '4095/4096, 65535; dense: one or two blocks of 1-140 registers, optionally wrapping past 65535 or with a hole; validators from the family '
          'none / v<k / even / reject-all on none, 1 in 30 or 1 in 3 registers), one request each: function codes 1,2,3,4,5,6,15,16 with addresses on '
@@ -273,7 +273,7 @@ AREAS["C19"] = {'area': 'c19',
          'Modbus/ClientProofs.v',
          'Modbus/ConvProofs.v',
          'Modbus/Legacy19.v',
-         'Properties/C19.v'],
+         'Properties/C19.v', "MiniGo", "Anchors/Generated.v", "Anchors/TieModbus.v", "Anchors/TieRtuCrc.v"],
  'rule': 'seeded generator, four streams. sessions: a modbus.Client and a modbus.Server.Listen joined by an in-memory duplex that delivers whole '
          'packets (RTU: pipe-like io.ReadWriteCloser; TCP: net.Pipe behind net.Conn wrappers), register file of one or two blocks (1..130 registers, '
          'some with validators) or a few scattered registers, unit ids incl. 0, 247, 255 and calls to a foreign unit, 1-5 calls each (ReadCoils, '
@@ -430,7 +430,7 @@ AREAS["C17"] = {'area': 'c17',
 AREAS["C10"] = {'area': 'c10',
  'also_corr': ['C11'],   # Decode / MergePoints are one model: arbitrary batches (C11's inputs) tie it to the code as well
  'id': 10,
- 'coq': ['Base', 'Codec', 'Properties/C10.v'],
+ 'coq': ['Base', 'Codec', 'Properties/C10.v', "Anchors/Generated.v", "Anchors/TieCodec.v"],
  'rule': 'seeded generator over 8 flat Go struct types covering scalar / pointer / slice / array / string-keyed map / flat struct / '
          'pointer-to-struct fields (bool, int, int8..int64, uint..uint64, float32, float64, string; point and edgepoint tags) and a 3-level struct '
          'type with `child` slices: per scale unit 2400 round-trip values, 1200 before/after pairs and 400 trees; slice and map sizes skewed to '
